@@ -471,7 +471,7 @@ func (d *Decoder) decodeSet(mem MemCache, msg *Message) error {
 			if err == nil {
 				mem.insert(tr.TemplateID, d.raddr, tr)
 			}
-		} else if setId >= 4 && setId <= 255 {
+		} else if setId >= 2 && setId <= 255 {
 			// Reserved set, do not read any records
 			break
 		} else {
